@@ -507,6 +507,25 @@ func GenStruct(r *Rng, pkg *Package, name string) *Struct {
 	case "derive":
 		valueAnn()
 		pickClasses()
+		// the USER of an earlier phantom-parameter generic struct: derive (a subset of) the classes it derives and hold it as a field
+		for _, o := range pkg.Structs {
+			if o.Phantom && len(o.Derives) > 0 && r.Intn(3) > 0 {
+				keep := []string{}
+				for _, cl := range c.classes {
+					if o.HasDerive(cl) {
+						keep = append(keep, cl)
+					}
+				}
+				if len(keep) == 0 {
+					keep = []string{o.Derives[r.Intn(len(o.Derives))].Class}
+				}
+				c.classes = keep
+				if c.structOK(o) {
+					st.Fields = append(st.Fields, Field{Name: "phv", Ty: structTy(o, instArgs(o))})
+				}
+				break
+			}
+		}
 		n := 1 + r.Intn(6)
 		if r.Intn(8) == 0 {
 			n = 19 + r.Intn(5)
@@ -522,6 +541,27 @@ func GenStruct(r *Rng, pkg *Package, name string) *Struct {
 			st.TParams[i].InstTy = instTy(st.TParams[i].Inst)
 		}
 		pickClasses()
+		if len(st.TParams) == 3 && r.Intn(2) == 0 {
+			// a PHANTOM type parameter (one of the three is used by no field) while the other two are used in an order different
+			// from their declaration: the instance function takes "one instance per type parameter actually used", in
+			// declaration order, also at the call sites inside OTHER derived types that have this struct as a field (seed C08-10)
+			ph := r.Intn(3)
+			st.Phantom = true
+			used := []int{}
+			for i := 2; i >= 0; i-- {
+				if i != ph {
+					used = append(used, i)
+				}
+			}
+			st.Fields = append(st.Fields,
+				Field{Name: "rvb", Ty: &Ty{K: "tparam", Name: st.TParams[used[0]].Name}},
+				Field{Name: "rva", Ty: &Ty{K: "tparam", Name: st.TParams[used[1]].Name}})
+			prev := c.allow
+			c.allow = func(k string) bool { return k != "tparam" && (prev == nil || prev(k)) }
+			c.fields(r.Intn(3), false, false)
+			c.allow = prev
+			break
+		}
 		if len(st.TParams) >= 2 && r.Intn(2) == 0 {
 			// the fields mention the type parameters in an order different from their declaration (instance
 			// arguments of a derived generic instance function must still follow the declaration)
